@@ -100,6 +100,16 @@ def parts():
 
 
 def main():
+    if len(sys.argv) > 1 and sys.argv[1] == 'fill':
+        from . import C15d
+        from .common import harness_native
+        lib = harness_native('h_slha_blk')
+        b, e, v = [int(x) for x in sys.argv[2:5]]
+        rc, mine, text, res = C15d.native_fill(lib, b, e, bool(v))
+        print('input:\n' + text + 'after fill_block_entry("X", 7, %s"result"):\n' % ('1.5, ' if v else '') + res)
+        print('rc', rc, 'lines with key 7 in block X:', mine)
+        ok = rc == 0 and len(mine) == 1 and (not v or mine[0].lower() == '1.50000000e+00')
+        sys.exit(0 if ok else 1)
     if len(sys.argv) > 1 and sys.argv[1] == 'parts':
         return parts()
     kind = sys.argv[1]
